@@ -25,5 +25,6 @@ From Chess3 Require Export Spec.EvalSym.
 From Chess3 Require Export Model.C05Streams.
 From Chess3 Require Export Spec.C05Judge.
 From Chess3 Require Export Model.Uci Spec.UciSpec.
+From Chess3 Require Export Model.Vector Model.EvalU Spec.TunerSpec.
 
 Extraction Language OCaml.
